@@ -92,6 +92,97 @@ example : ∀ h ∈ bareCrHunks, Unified.writableCR h = true ∧ h.writable = fa
      | _ => false)
   | _ => false)
 
+/-! ### a half is only left out when the other half has no changed line (C09-motivated) -/
+
+/-- NEW (fix "a half of a context hunk may only be left out if the other half has no '!' line").
+    **Changed lines need their counterpart**: when the hunk reader takes the new half for omitted (`nl = []`) although
+    the old half has a '!' line, the body is refused with `std::invalid_argument`.  Before the fix the '!' lines of the old
+    half were turned into deletions and the hunk applied (`damagedText` below: damaged text of the new half made the
+    reader take it for omitted). -/
+theorem context_changed_lines_need_counterpart (fuel : Nat) (par par1 : Parser) (hs : List Hunk)
+    (ol : List PatchLine) (os ns : Int) (l : PatchLine)
+    (hp : parseContextHunk par = .ok (ol, os, [], ns, par1)) (hl : l ∈ ol) (hb : l.op = BANG) :
+    parseContextBody (fuel + 1) par hs = .error .invalidArgument := by
+  have hany : ol.any (·.op == BANG) = true := List.any_eq_true.mpr ⟨l, hl, by simp [hb]⟩
+  rw [parseContextBody]
+  simp [hp, hany]
+
+/-- the symmetric one: the old half left out although the new half has a '!' line -/
+theorem context_changed_lines_need_counterpart_new (fuel : Nat) (par par1 : Parser) (hs : List Hunk)
+    (nl : List PatchLine) (os ns : Int) (l : PatchLine)
+    (hp : parseContextHunk par = .ok ([], os, nl, ns, par1)) (hl : l ∈ nl) (hb : l.op = BANG) :
+    parseContextBody (fuel + 1) par hs = .error .invalidArgument := by
+  have hany : nl.any (·.op == BANG) = true := List.any_eq_true.mpr ⟨l, hl, by simp [hb]⟩
+  rw [parseContextBody]
+  simp [hp, hany]
+
+/-- the same read from the accepting side: whenever the body parser does not fail with the hunk reader's result in hand, a
+    half that is empty comes with a '!'-free other half — in every hunk the body parser goes on with, each '!' line has
+    a non-empty opposite half -/
+theorem context_accepted_halves (fuel : Nat) (par par1 : Parser) (hs : List Hunk) (ol nl : List PatchLine) (os ns : Int)
+    (r : List Hunk × Parser)
+    (hp : parseContextHunk par = .ok (ol, os, nl, ns, par1)) (hok : parseContextBody (fuel + 1) par hs = .ok r) :
+    (nl = [] → ∀ l ∈ ol, l.op ≠ BANG) ∧ (ol = [] → ∀ l ∈ nl, l.op ≠ BANG) := by
+  constructor
+  · intro hn l hl hb
+    subst hn
+    rw [context_changed_lines_need_counterpart fuel par par1 hs ol os ns l hp hl hb] at hok
+    cases hok
+  · intro ho l hl hb
+    subst ho
+    rw [context_changed_lines_need_counterpart_new fuel par par1 hs nl os ns l hp hl hb] at hok
+    cases hok
+
+/-- a context diff whose new half is damaged (`X a` where `  a` stood): the hunk reader sees no line of a new half after
+    `--- 2,4 ----` and takes the half for omitted, although the old half has two '!' lines -/
+def damagedText : Bytes :=
+  str "*** a/f\n--- b/f\n***************\n*** 2,5 ****\n  a\n! b\n! b\n  b\n--- 2,4 ----\nX a\n! }\n  b\n"
+
+-- the hunk reader on the body of `damagedText`: old half with two '!' lines, new half taken for omitted; what
+-- `hunk_from_context_parts` makes of it is a hunk that deletes the two `b` lines (what was applied before the fix) ...
+#guard (match parseHeader { s := { rest := splitLines damagedText } } { format := .unknown } 0 with
+  | .ok (true, p, _, par1) =>
+    p.format == .context &&
+    (match parseContextHunk par1 with
+     | .ok (ol, os, nl, ns, _) =>
+       ol.map (·.op) == [SP, BANG, BANG, SP] && nl.isEmpty &&
+       (match hunkFromContextParts os ol ns nl with
+        | .ok h => h.lines.map (fun pl => (pl.op, pl.line.content)) == [(SP, [97]), (MINUS, [98]), (MINUS, [98]), (SP, [98])]
+        | _ => false)
+     | _ => false)
+  | _ => false)
+
+-- ... and now `parse_patch_body`, `parse_patch` and the section loop refuse the text with `std::invalid_argument`
+#guard (match parseHeader { s := { rest := splitLines damagedText } } { format := .unknown } 0 with
+  | .ok (true, p, _, par1) => (match parseBody par1 p with | .error .invalidArgument => true | _ => false)
+  | _ => false)
+#guard (match parsePatch damagedText .unknown 0 with | .error .invalidArgument => true | _ => false)
+#guard (match parsePatch damagedText .context 0 with | .error .invalidArgument => true | _ => false)
+#guard (match parseAll .unknown 0 20 { s := { rest := splitLines damagedText } } [] with
+  | .error .invalidArgument => true | _ => false)
+
+/-- the lines of `damagedText` after its two header lines -/
+def damagedBody : List Line :=
+  [⟨[42, 42, 42, 42, 42, 42, 42, 42, 42, 42, 42, 42, 42, 42, 42], .lf⟩, ⟨[42, 42, 42, 32, 50, 44, 53, 32, 42, 42, 42, 42], .lf⟩,
+   ⟨[32, 32, 97], .lf⟩, ⟨[33, 32, 98], .lf⟩, ⟨[33, 32, 98], .lf⟩, ⟨[32, 32, 98], .lf⟩,
+   ⟨[45, 45, 45, 32, 50, 44, 52, 32, 45, 45, 45, 45], .lf⟩, ⟨[88, 32, 97], .lf⟩, ⟨[33, 32, 125], .lf⟩, ⟨[32, 32, 98], .lf⟩]
+
+#guard (splitLines damagedText).drop 2 == damagedBody
+#guard (match parseHeader { s := { rest := splitLines damagedText } } { format := .unknown } 0 with
+  | .ok (_, _, _, par1) => par1.s.rest == damagedBody | _ => false)
+
+/-- the same, kernel-checked: the body of `damagedText` (fuel 12 is what `parse_patch_body` passes for 10 lines) is
+    refused with `std::invalid_argument` -/
+theorem damagedText_refused :
+    (parseContextBody 12 { s := { rest := damagedBody }, lineNo := 2 } []).map (·.1) = .error .invalidArgument := by
+  open Context in
+  simp [damagedBody, parseContextBody, parseContextHunk, ctxSkipToOldRange, Parser.getLine, PStream.getLine,
+    startsWith_lit _ _ _ str_old4, endsWith_lit _ _ _ str_old5, startsWith_lit _ _ _ str_new4, endsWith_lit _ _ _ str_new5,
+    startsWith_lit _ _ _ str_stars10,
+    List.isPrefixOf, ctxRangeText, parseContextRange, consumeLineNumber, isDigit, stringToLineNumber, i64Max, consumeStr,
+    ctxParseNewRange, ctxAppendLine, ctxAppendContent, ctxCheckNoNewline, PStream.peek, BACKSLASH, SP, MINUS, PLUS, BANG,
+    isToFileLine, PStream.seek, Except.map]
+
 end PatchModel.C13
 
 #print axioms PatchModel.C13.context_roundtrip
@@ -99,3 +190,7 @@ end PatchModel.C13
 #print axioms PatchModel.C13.context_final_newline_matters
 #print axioms PatchModel.C13.context_write_ok
 #print axioms PatchModel.C13.context_roundtrip_cr
+#print axioms PatchModel.C13.context_changed_lines_need_counterpart
+#print axioms PatchModel.C13.context_changed_lines_need_counterpart_new
+#print axioms PatchModel.C13.context_accepted_halves
+#print axioms PatchModel.C13.damagedText_refused
